@@ -732,6 +732,10 @@ def eval_term(t, srcs, env):
         return clip_by_rect(eval_term(t[1], srcs, env), *b)
     if k == "refine":
         return refine_cross_section(eval_term(t[1], srcs, env))
+    if k == "dedupe":
+        from shapely import remove_repeated_points
+        g = eval_term(t[1], srcs, env)
+        return remove_repeated_points(g, tolerance=pyexpr.py_eval(t[2], env) * g.length)
     raise ValueError(t)
 
 
